@@ -28,6 +28,9 @@ def _mark_scalar(c):
         d: dict = {}
         nf._atomic_conds(c, d)
         nf.SCALAR_CONDS.update(d.keys())
+        for at in d.values():       # the mirrored comparison (lt for ge ...) is the same scalar condition
+            if at.op in nf._NEG:
+                nf.SCALAR_CONDS.add(nf.atom(nf._NEG[at.op], at.args[0]).uid)
 
 
 class Opaque(Exception):
@@ -51,7 +54,7 @@ class Builder:
 
     def __init__(self, prog: Program | None, func: Func | None, env=None, facts=None, *,
                  positive=DEFAULT_POSITIVE, erase_casts=True, inline_depth=3, self_prefix="self",
-                 inline_filter=None, erase_layout=False, erase_validation=False, keep_raises=False, track_locals=False, track_effects=False):
+                 inline_filter=None, erase_layout=False, erase_validation=False, keep_raises=False, track_locals=False, track_effects=False, summarise_loops=False):
         self.prog, self.func = prog, func
         self.env = dict(env or {})
         self.facts = facts or Facts()
@@ -62,6 +65,7 @@ class Builder:
         self.erase_layout = erase_layout
         self.erase_validation = erase_validation   # argtest.<check>(name, value, ...) -> value (validators return their value)
         self.keep_raises = keep_raises     # a `raise X(...)` is the value raise(X) (a leaf of the decision tree), not bottom
+        self.summarise_loops = summarise_loops  # a loop is the term loop(iterable, what one iteration computes / stores / calls) instead of an opaque region
         self.track_effects = track_effects  # calls evaluated as statements are appended to the pseudo-store "!effects" (ordered, path-sensitive)
         self.track_locals = track_locals   # item stores / deletes on local containers are recorded as stores "<name>[]"
         self.stores: dict[str, object] = {}   # dotted attribute path -> term (last store on this path)
@@ -71,7 +75,8 @@ class Builder:
         b = Builder(self.prog, self.func, self.env if env is None else env, facts or self.facts,
                     positive=self.positive, erase_casts=self.erase_casts, inline_depth=self.inline_depth,
                     inline_filter=self.inline_filter, erase_layout=self.erase_layout, erase_validation=self.erase_validation,
-                    keep_raises=self.keep_raises, track_locals=self.track_locals, track_effects=self.track_effects)
+                    keep_raises=self.keep_raises, track_locals=self.track_locals, track_effects=self.track_effects,
+                    summarise_loops=self.summarise_loops)
         b.stores = dict(self.stores)
         return b
 
@@ -134,6 +139,9 @@ class Builder:
     def e_BinOp(self, e):
         a, b = self.t(e.left), self.t(e.right)
         if not isinstance(a, Rat) or not isinstance(b, Rat):
+            if isinstance(e.op, ast.Mult):
+                # `*` commutes for every operand pair Python / torch define it for (numbers, tensors, sequence repetition)
+                a, b = sorted((a, b), key=lambda x: nf.show(x) if isinstance(x, Rat) else repr(tuple(nf.show(y) if isinstance(y, Rat) else str(y) for y in x)) if isinstance(x, tuple) else str(x))
             return app("binop", type(e.op).__name__, a, b)
         op = e.op
         if isinstance(op, ast.Add):
@@ -478,6 +486,8 @@ class Builder:
         for i, st in enumerate(stmts):
             if isinstance(st, ast.Return):
                 return self.t(st.value) if st.value is not None else app("const", "None")
+            if isinstance(st, ast.Continue) and self.summarise_loops:
+                return app("const", "continue")
             if isinstance(st, ast.Raise):
                 if self.keep_raises:
                     return app("raise", "refusal")   # which exception type is raised is not part of any property
@@ -591,6 +601,9 @@ class Builder:
             r = self.run(st.body)
             if r is not None:
                 raise Opaque("return inside with")
+        elif self.summarise_loops and isinstance(st, (ast.For, ast.While)) and not st.orelse \
+                and not any(isinstance(n, (ast.Return, ast.Break)) for n in ast.walk(st)):
+            self._loop(st)
         elif isinstance(st, (ast.For, ast.While, ast.Try, ast.Match)):
             # opaque region: every name/attribute stored inside becomes a fresh atom
             for n in ast.walk(st):
@@ -607,6 +620,50 @@ class Builder:
             self.env[st.name] = app("localdef", st.name)
         else:
             raise Opaque(type(st).__name__)
+
+    def _loop(self, st):
+        """One iteration as a term: the loop variables and the loop-carried locals / stores are symbols named after
+        themselves, the body is evaluated once, and everything it assigns, stores or calls becomes
+        loop(<iterable or test>, <name>, <value after one iteration>)."""
+        head = self.t(st.iter) if isinstance(st, ast.For) else self.t(st.test)
+        head = head if isinstance(head, Rat) else app("tuple", *head) if isinstance(head, tuple) else app("const", str(head))
+        assigned, stored = set(), set()
+        for n in ast.walk(st):
+            if isinstance(n, (ast.Name, ast.Attribute, ast.Subscript)) and isinstance(getattr(n, "ctx", None), ast.Store):
+                base = n.value if isinstance(n, ast.Subscript) else n
+                d = dotted(base)
+                if d is not None:
+                    (stored if "." in d else assigned).add(d)
+        child = self.child(dict(self.env))
+        for v in assigned:
+            child.env[v] = sym(v + "@iter")
+        for k in list(child.stores):
+            child.stores[k] = sym(k + "@iter")
+        for k in stored:
+            child.env[k] = sym(k + "@iter")
+        child.stores.pop("!effects", None)
+        if isinstance(st, ast.For):
+            child.assign(st.target, app("element", head))
+        r = child.run(list(st.body))
+        ret = r if isinstance(r, Rat) else app("const", "None")
+
+        def wrap(name, v):
+            v = v if isinstance(v, Rat) else (app("tuple", *v) if isinstance(v, tuple) else app("const", str(v)))
+            return app("loop", head, app("const", name), v, ret)
+        for v in sorted(assigned):
+            if v in child.env:
+                self.env[v] = wrap(v, child.env[v])
+        for k, v in sorted(child.stores.items()):
+            if k == "!effects":
+                if self.track_effects:
+                    self.stores["!effects"] = app("seq", self.stores.get("!effects", sym("!effects")), wrap("!effects", v))
+                continue
+            if isinstance(v, Rat) and v.eq(sym(k + "@iter")):
+                continue
+            nv = wrap(k, v)
+            self.stores[k] = nv
+            if k in self.env or "." in k:
+                self.env[k.rstrip("[]")] = nv
 
     def assign(self, tgt, v):
         if isinstance(tgt, ast.Name):
